@@ -133,6 +133,11 @@ pub fn corpus(seed: u64) -> Vec<(&'static str, Case)> {
         v.push(("100 KiB row, short writes", c));
     }
     {
+        // a resultset of more than a thousand rows (whatever is done "every N rows" happens here)
+        let c = Case::new(vec![Cmd::query(b"long"), Cmd::ping()], vec![Script::Q(rows_prog(1, 1100, false, false, QOp::Finish))]);
+        v.push(("1100 rows", c));
+    }
+    {
         // many packets in one response
         let mut c = Case::new(vec![Cmd::query(b"many")], vec![Script::Q(rows_prog(4, 40, false, false, QOp::Finish))]);
         c.write_limit = 7;
@@ -517,7 +522,7 @@ pub fn run(ctx: &Ctx) -> Report {
                     scripts.push(Script::Q(QProg::completed(k as u64, 0)));
                 }
                 let per_cmd = i % 4 != 3;
-                let mut c = super::c18::TlsCase { tls13: rng.bool(), with_cert: rng.chance(1, 4), server_mode: 0, user: b"cutuser".to_vec(), cmds, scripts, first_cut: 0, cycle: if rng.bool() { vec![] } else { vec![rng.range(1, 700) as usize] }, write_limit: usize::MAX, close_notify: false, raw_limit: None, hs_variant: 0, app_override: None, seqs: (1, 2), auth_reject: None, record_per_command: per_cmd };
+                let mut c = super::c18::TlsCase { tls13: rng.bool(), with_cert: rng.chance(1, 4), server_mode: 0, user: b"cutuser".to_vec(), cmds, scripts, first_cut: 0, cycle: if rng.bool() { vec![] } else { vec![rng.range(1, 700) as usize] }, write_limit: usize::MAX, close_notify: false, raw_limit: None, hs_variant: 0, app_override: None, seqs: (1, 2), auth_reject: None, record_per_command: per_cmd, write_fault: None };
                 let dry = match super::c18::run_tls(&tm, &c) {
                     Ok(o) => o,
                     Err(e) => {
